@@ -2,6 +2,7 @@
    Model: theories/EALoop.v (both loop shapes, arbitrary variation oracle, arbitrary objective);
    proofs: theories/EALoopProofs.v. *)
 From TF Require Import Base EALoop EALoopProofs.
+From TF Require EAStore EAStoreProofs.
 Open Scope Q_scope.
 
 (* after fit(): the record holds an individual that was handed to the objective, whose normalised
@@ -45,6 +46,29 @@ Theorem C01_rejected_trials_dominated :
   forall t, In t ts -> exists x, In x (greedy G P ts ps) /\ ifit t <= ifit x.
 Proof. exact greedy_dominates. Qed.
 Print Assumptions C01_rejected_trials_dominated.
+
+(* the reported triple is a private copy (aliasing model theories/EAStore.v: arrays = row locations,
+   a[i] = view, .copy() = fresh location, pop[mask] = ..., pop[-1] = ... write contents): as long as the
+   record is not replaced, no sequence of population writes (greedy acceptance, elitism, a new
+   population), history snapshots, get_fittest() calls or caller-side writes into returned objects
+   changes the record's objects or their contents; and a replaced record is a FRESH copy *)
+Theorem C01_fittest_private : forall (V : Type) (dflt : V) ops (s : EAStore.st V),
+  EAStore.wf V s -> forallb (EAStoreProofs.no_replace V) ops = true ->
+  EAStore.rcd V (EAStore.run V dflt s ops) = EAStore.rcd V s /\
+  forall l, In l (EAStore.rcd V s) -> EAStore.rd V dflt (EAStore.heap V (EAStore.run V dflt s ops)) l = EAStore.rd V dflt (EAStore.heap V s) l.
+Proof. exact EAStoreProofs.record_private. Qed.
+Print Assumptions C01_fittest_private.
+
+Theorem C01_replaced_record_is_fresh : forall (V : Type) (dflt : V) (s : EAStore.st V) i l,
+  EAStore.wf V s -> nth_error (EAStore.pop V s) i = Some l ->
+  EAStore.rcd V (EAStore.step V dflt s (EAStore.ReplaceRecord V i)) = [length (EAStore.heap V s)] /\ ~ In (length (EAStore.heap V s)) (EAStore.pop V s) /\
+  EAStore.rd V dflt (EAStore.heap V (EAStore.step V dflt s (EAStore.ReplaceRecord V i))) (length (EAStore.heap V s)) = EAStore.rd V dflt (EAStore.heap V s) l.
+Proof. exact EAStoreProofs.replace_is_fresh. Qed.
+Print Assumptions C01_replaced_record_is_fresh.
+
+Theorem C01_store_wf_preserved : forall (V : Type) (dflt : V) (s : EAStore.st V) o, EAStore.wf V s -> EAStore.wf V (EAStore.step V dflt s o).
+Proof. exact EAStoreProofs.step_wf. Qed.
+Print Assumptions C01_store_wf_preserved.
 
 (* non-vacuity: a 3-generation greedy run with a tie and a rejected trial; genotype = phenotype = Z,
    objective x |-> x, batches [3;1] then [1;5] then [5;0] *)
